@@ -1342,9 +1342,15 @@ def nx_set_node_attributes(g, value, name):
 _pref_counter = [0]
 
 
-def m_min(interp, it, key=None):
+def m_min(interp, it, *more, key=None):
     """min() of a guarded collection under an *arbitrary* total preference (fresh Booleans): sound for every key."""
     import z3
+
+    if more:  # min(a, b, ...): concrete values only
+        vals = [it, *more]
+        if any(isinstance(v, (SSet, SList, SBool, SymCount)) for v in vals):
+            raise Unsupported("min() of several symbolic arguments")
+        return min(vals) if key is None else min(vals, key=lambda x: interp.apply(key, [x], {}))
 
     if not isinstance(it, (SSet, SList)) or SList.of(it).is_concrete():
         vals = SList.of(it).concrete() if isinstance(it, (SSet, SList)) else list(it)
